@@ -6,6 +6,9 @@ slot, `render_for_model` accumulates the catalogue's triples, `combine_scene` is
 import PysersicModel.Gen.Scene
 import Proofs.RenderLinear
 
+set_option linter.unusedSectionVars false
+set_option linter.unusedSimpArgs false
+
 namespace Pysersic.Proofs.GenScene
 open Pysersic Pysersic.Render Pysersic.Gen.Scene
 open Pysersic.Prob (two one zero half sq)
